@@ -1,6 +1,7 @@
 package isaacdatabase
 
 import (
+	"bytes"
 	"context"
 	"math"
 
@@ -364,7 +365,20 @@ func (db *LeveldbPermanent) mergeTempDatabaseFromLeveldb(ctx context.Context, te
 	batch := pst.NewBatch()
 	defer batch.Reset()
 
+	// NOTE BlockMap is written after the others; until then the block is not
+	// the last block of permanent database and still served by it's temp
+	// database after restart.
+	mpkey := leveldbBlockMapKey(temp.Height())
+
+	var mpvalue []byte
+
 	if err := tpst.Iter(nil, func(k, v []byte) (bool, error) {
+		if bytes.Equal(k, mpkey) {
+			mpvalue = bytes.Clone(v)
+
+			return true, nil
+		}
+
 		if batch.Len() == db.batchlimit {
 			b := batch
 
@@ -396,6 +410,12 @@ func (db *LeveldbPermanent) mergeTempDatabaseFromLeveldb(ctx context.Context, te
 
 	if err := worker.Wait(); err != nil {
 		return e.Wrap(err)
+	}
+
+	if mpvalue != nil {
+		if err := pst.Put(mpkey, mpvalue, nil); err != nil {
+			return e.Wrap(err)
+		}
 	}
 
 	_ = db.updateLast(
